@@ -266,6 +266,42 @@ def r3(k: Kit) -> None:
                   'the decoder is finalised while data may still arrive',
                   k.loc(fr, n))
 
+    # process redirection: text channel <-> binary file / pipe / stream
+    for cq, fld, meth, maker in (
+            ('process._UnicodeReader', 'self._decoder', 'decode',
+             'getincrementaldecoder'),
+            ('process._UnicodeWriter', 'self._encoder', 'encode',
+             'getincrementalencoder')):
+        cls = k.idx.cls(cq)
+        init = cls.methods.get('__init__')
+        mf = cls.methods.get(meth)
+        if init is None or mf is None:
+            rep.violation('C07.R3', f'{cq}|{meth}', 'method not found',
+                          cls.module.relpath)
+            continue
+        made = [v for n, v in k.stores_to(init, fld) if v is not None and
+                not (isinstance(v, ast.Constant) and v.value is None)]
+        okm = bool(made) and all(
+            isinstance(v, ast.Call) and isinstance(v.func, ast.Call) and
+            is_call(v.func, maker) for v in made)
+        stateless = [c for f in cls.methods.values()
+                     for c in ast.walk(f.node)
+                     if isinstance(c, ast.Call) and
+                     isinstance(c.func, ast.Attribute) and
+                     c.func.attr == meth and
+                     dotted(c.func.value) not in (fld, 'self')]
+        uses = [c for c in ast.walk(mf.node) if is_call(c, meth, fld)]
+        rep.check(okm and not stateless and bool(uses), 'C07.R3',
+                  key(mf, f'incremental {meth} for redirected streams'),
+                  f'{fld} = codecs.{maker}(encoding)(errors) does every '
+                  'conversion',
+                  f'{cq}.{meth} converts each chunk on its own '
+                  f'({"; ".join(norm(c)[:50] for c in stateless) or "no incremental codec"}): '
+                  'a stateful encoding (utf-16, utf-8-sig, iso-2022) '
+                  'restarts at every packet boundary - an extra BOM per '
+                  'chunk, split characters corrupted - on a text channel '
+                  'redirected to a binary target', mf.loc(mf.node))
+
 
 def r4(k: Kit) -> None:
     rep = k.rep
@@ -549,6 +585,154 @@ def r7(k: Kit) -> None:
     rep.floor('C07.R7', 'resume sites followed by a decision', n, 1)
 
 
+def r8(k: Kit) -> None:
+    """Inbound data is kept in every state in which the peer may send it."""
+    from ..absint import evaluate, Obj, NotEvaluable
+    rep = k.rep
+    idx = k.idx
+    rep.rule('C07.R8', 'SSHChannel._accept_data evaluated over the five send '
+             'states x paused / not paused with non-empty data: the data is '
+             'buffered or delivered (and charged to the window) unless the '
+             'local side has closed (close_pending, closed) - in particular '
+             'while our own EOF is still queued behind unsent data '
+             '(eof_pending) the peer\'s answer is not dropped')
+    fi = k.func(CH + '_accept_data')
+    body = [st for st in fi.node.body if not (
+        isinstance(st, ast.Expr) and isinstance(st.value, ast.Constant))]
+    bad = None
+    n = 0
+    for ss in ('open', 'eof_pending', 'eof', 'close_pending', 'closed'):
+        for paused in (False, True, 'starting'):
+            n += 1
+            buf: list = []
+            try:
+                o = evaluate(idx, fi.module, body,
+                             {'self._send_state': ss,
+                              'self._recv_paused': paused,
+                              'self._recv_window': 100,
+                              'self._recv_buf': buf},
+                             {'data': b'DATA', 'datatype': None},
+                             lambda a, b, c: Obj('x'))
+            except NotEvaluable as exc:
+                rep.error('C07.R8', key(fi, 'not-evaluable'), str(exc))
+                return
+            kept = bool(buf) or bool(o.called('self._deliver_data'))
+            want = ss not in ('close_pending', 'closed')
+            if kept != want and bad is None:
+                bad = (f'send state {ss!r}, paused={paused!r}: data '
+                       f'{"kept" if kept else "dropped"}, expected '
+                       f'{"kept" if want else "dropped"}' +
+                       (': everything the peer sends while our EOF waits '
+                        'for window is silently discarded - the reader sees '
+                        'only the tail of the stream' if want else ''))
+            if kept and dict(o.stores).get('self._recv_window') != 96 \
+                    and bad is None:
+                bad = f'send state {ss!r}: kept data not charged to window'
+    rep.count('eval.accept_data_states', n)
+    rep.check(bad is None, 'C07.R8', key(fi, 'accept table'),
+              f'{n} states', str(bad), fi.loc(fi.node))
+
+
+def r9(k: Kit) -> None:
+    """One feeder per redirected source."""
+    rep = k.rep
+    idx = k.idx
+    rep.rule('C07.R9', 'process redirection readers whose feed() starts a '
+             'task running `async def _feed` and whose resume_reading() '
+             'calls feed() again: the task is created only on the False edge '
+             'of a test of a field that feed() sets before creating the task '
+             'and that _feed clears on every exit (finally).  Without it a '
+             'pause / resume while _feed awaits read() starts a second '
+             'feeder on the same file: two readers interleave and the '
+             'channel sees the chunks out of order, then two EOFs')
+    n = 0
+    for cls in idx.module('process').classes.values():
+        fd = cls.methods.get('feed')
+        af = cls.methods.get('_feed')
+        rs = cls.methods.get('resume_reading')
+        if not (fd and af and rs and af.is_async):
+            continue
+        if not k.calls_named(rs, 'feed', 'self'):
+            continue
+        sites = [(nd, c) for nd, c in k.call_nodes(
+            fd, lambda c: is_call(c, 'create_task') and
+            '_feed' in unparse(c))]
+        if not sites:
+            continue
+        n += 1
+        g = k.cfg(fd)
+        ga = k.cfg(af)
+        okc = False
+        why = 'no guard field'
+        for nd, c in sites:
+            for a in g.nodes:
+                f = dotted(a.ast) if a.kind == 'atom' and a.ast is not None \
+                    else None
+                if not (f and f.startswith('self.')):
+                    continue
+                if g.guarded_by(nd.id, lambda x, f=f: False
+                                if x.kind == 'atom' and dotted(x.ast) == f
+                                else None) is not None:
+                    continue
+                sets = [m.id for m, v in k.stores_to(fd, f)
+                        if isinstance(v, ast.Constant) and v.value is True]
+                if not sets or g.must_pass(sets, dst=nd.id) is not None:
+                    why = f'{f} is not set before the task is created'
+                    continue
+                clears = [m.id for m, v in k.stores_to(af, f)
+                          if isinstance(v, ast.Constant) and
+                          v.value is False]
+                if not clears or \
+                        ga.must_pass(clears) is not None or \
+                        ga.path(ga.entry, ga.raise_exit,
+                                blocked_nodes=clears) is not None:
+                    why = f'{f} is not cleared on every exit of _feed'
+                    continue
+                okc = True
+        rep.check(okc, 'C07.R9', key(fd, 'single feeder'),
+                  'task creation guarded by a busy flag cleared in _feed',
+                  f'{cls.qual}.feed() starts a new _feed task whenever it is '
+                  f'called ({why}): resume_reading() during an outstanding '
+                  'read() - e.g. a burst on another stream of the same '
+                  'process pausing and resuming all readers - leaves two '
+                  'tasks reading the same source; its chunks reach the '
+                  'channel out of order', fd.loc(fd.node))
+    rep.floor('C07.R9', 'task-fed readers', n, 2)
+
+
+def r10(k: Kit) -> None:
+    """Readers keep a reference to their buffer across awaits."""
+    rep = k.rep
+    idx = k.idx
+    rep.rule('C07.R10', 'the per-datatype receive buffer list of a stream '
+             'session (self._recv_buf[datatype]) is created in '
+             'connection_made only and otherwise changed in place: read(), '
+             'readuntil() and the TUN/TAP read hold the list in a local '
+             'variable while they await more data, so rebinding the slot '
+             'leaves a blocked reader watching a dead list - it returns an '
+             'empty result (EOF) while later data sits in the new one')
+    n = 0
+    for fi in idx.iter_funcs(['stream', 'process']):
+        for x in ast.walk(fi.node):
+            tgts = []
+            if isinstance(x, ast.Assign):
+                for t in x.targets:
+                    tgts += list(t.elts) if isinstance(t, ast.Tuple) else [t]
+            for t in tgts:
+                if isinstance(t, ast.Subscript) and \
+                        dotted(t.value) == 'self._recv_buf':
+                    n += 1
+                    rep.check(fi.name == 'connection_made', 'C07.R10',
+                              key(fi, 'receive buffer slot not rebound'),
+                              'set-up only',
+                              f'{fi.qual} rebinds self._recv_buf[...] '
+                              f'(`{norm(x)[:60]}`): a read() blocked on the '
+                              'old list is woken by the next data but still '
+                              'sees its own empty list and reports EOF '
+                              'before the data', fi.loc(x))
+    rep.floor('C07.R10', 'receive buffer slot stores', n, 1)
+
+
 def run(idx, rep, tier):
     k = Kit(idx, rep)
     rep.assumptions += NOT_DECIDED
@@ -559,3 +743,6 @@ def run(idx, rep, tier):
     r5(k)
     r6(k)
     r7(k)
+    r8(k)
+    r9(k)
+    r10(k)
